@@ -287,6 +287,50 @@ impl ProtoCtx {
                 self.rln();
                 "ok".into()
             }
+            // `rln io <r|r1|w> <op> args…`: the same API call made by a caller whose reader fails after delivering its bytes (r: the
+            // last reader, r1: the first of two) or whose output cannot take a single byte (w). The call must return an error and
+            // leave the instance exactly as it was (observed by the lines that follow).
+            ("io", _) if w.len() >= 3 => {
+                struct FailingReader(Cursor<Vec<u8>>, bool);
+                impl std::io::Read for FailingReader {
+                    fn read(&mut self, buf: &mut [u8]) -> std::io::Result<usize> {
+                        let n = self.0.read(buf)?;
+                        if n == 0 && self.1 { Err(std::io::Error::new(std::io::ErrorKind::Other, "injected read failure")) } else { Ok(n) }
+                    }
+                }
+                let fr = |b: Vec<u8>| FailingReader(Cursor::new(b), true);
+                let okr = |b: Vec<u8>| FailingReader(Cursor::new(b), false);
+                let mut none: [u8; 0] = [];
+                let mode = w[1];
+                let a = &w[2..];
+                let r: color_eyre::Result<()> = match (mode, a[0], a.len()) {
+                    ("r", "set_leaf", 3) => { let b = fr_to_bytes_le(&parse_fr(a[2])?); self.rln().set_leaf(parse_usize(a[1])?, fr(b)) }
+                    ("r", "set_next", 2) => { let b = fr_to_bytes_le(&parse_fr(a[1])?); self.rln().set_next_leaf(fr(b)) }
+                    ("r", "set_leaves_from", 3) => { let b = vec_fr_to_bytes_le(&list_fr(a[2])?).ok()?; self.rln().set_leaves_from(parse_usize(a[1])?, fr(b)) }
+                    ("r", "init_leaves", 2) => { let b = vec_fr_to_bytes_le(&list_fr(a[1])?).ok()?; self.rln().init_tree_with_leaves(fr(b)) }
+                    ("r", "atomic", 4) | ("r1", "atomic", 4) => {
+                        let b = vec_fr_to_bytes_le(&list_fr(a[2])?).ok()?;
+                        let idx: Vec<u8> = if a[3] == "-" { vec![] } else { a[3].split(',').map(|x| parse_usize(x).map(|v| v as u8)).collect::<Option<_>>()? };
+                        let ib = vec_u8_to_bytes_le(&idx).ok()?;
+                        if mode == "r" { self.rln().atomic_operation(parse_usize(a[1])?, okr(b), fr(ib)) } else { self.rln().atomic_operation(parse_usize(a[1])?, fr(b), okr(ib)) }
+                    }
+                    ("w", "root", 1) => self.rln().get_root(&mut none[..]),
+                    ("w", "get_leaf", 2) => self.rln().get_leaf(parse_usize(a[1])?, &mut none[..]),
+                    ("w", "get_proof", 2) => self.rln().get_proof(parse_usize(a[1])?, &mut none[..]),
+                    ("w", "empty", 1) => self.rln().get_empty_leaves_indices(&mut none[..]),
+                    ("w", "prove_req", 2) => self.rln().generate_rln_proof(Cursor::new(parse_bytes(a[1])?), &mut none[..]),
+                    ("r", "prove_req", 2) => { let mut c = Cursor::new(Vec::new()); self.rln().generate_rln_proof(fr(parse_bytes(a[1])?), &mut c) }
+                    ("r", "verify_rln", 2) => self.rln().verify_rln_proof(fr(parse_bytes(a[1])?)).map(|_| ()),
+                    ("r", "verify", 2) => self.rln().verify(fr(parse_bytes(a[1])?)).map(|_| ()),
+                    ("w", "key_gen", 1) => self.rln().key_gen(&mut none[..]),
+                    ("w", "seeded_key_gen", 2) => self.rln().seeded_key_gen(Cursor::new(parse_bytes(a[1])?), &mut none[..]),
+                    ("r", "seeded_key_gen", 2) => { let mut c = Cursor::new(Vec::new()); self.rln().seeded_key_gen(fr(parse_bytes(a[1])?), &mut c) }
+                    ("r", "recover", 3) => { let mut c = Cursor::new(Vec::new()); self.rln().recover_id_secret(okr(parse_bytes(a[1])?), fr(parse_bytes(a[2])?), &mut c) }
+                    ("w", "recover", 3) => self.rln().recover_id_secret(Cursor::new(parse_bytes(a[1])?), Cursor::new(parse_bytes(a[2])?), &mut none[..]),
+                    _ => return None,
+                };
+                res(r)
+            }
             ("set_leaf", 3) => { let b = fr_to_bytes_le(&parse_fr(w[2])?); res(self.rln().set_leaf(parse_usize(w[1])?, Cursor::new(b))) }
             ("set_next", 2) => { let b = fr_to_bytes_le(&parse_fr(w[1])?); res(self.rln().set_next_leaf(Cursor::new(b))) }
             ("delete", 2) => res(self.rln().delete_leaf(parse_usize(w[1])?)),
